@@ -228,6 +228,7 @@ func runC12(c *Check) {
 			c.undecided("C12-R6", "non-empty-lines", "", fmt.Sprintf("expected the local and the symbolz assignment of Location.Line, found %d", n))
 		}
 	}
+	c.forceOnlyWhenRequested()
 }
 
 // skippableInIteration: can control go once around the innermost loop containing block b
